@@ -45,7 +45,7 @@ def items(thorough):
         if spec[1] == 3 and sl == "A" and spec[4] == "body" and not thorough and spec[3] not in ((b"ok",), (b"ok", b"a", b"\x01")):
             continue            # v3 frames arguments and body independently: the product is left to the thorough tier
         out.append(("pull", spec, b"", "any"))
-        if spec[1] == 3 and (sl == "B" or thorough or len(spec[3]) <= 1):
+        if spec[1] == 3 and (sl == "B" or thorough):
             out.append(("push", spec, W.next_bytes(spec), "any"))
     # pipelined requests through the real socket medium
     for sl, spec in W.request_specs(thorough):
@@ -55,7 +55,7 @@ def items(thorough):
         if spec[1] == 3 and not thorough:
             # quick tier: v3 requests with <= 1 argument, <= 1 chunk (plus one two-chunk stream), 3 offset
             # lists, followed by a v1 request (shorter); the thorough tier runs the whole grammar
-            if sl == "A" and len(spec[3]) > 1:
+            if sl == "A" and len(spec[3]) > 1 or sl == "H":
                 continue
             if spec[4] in ("stream", "stream_err") and len(spec[5]) > 1 and spec[5] != [W.B1, W.B0]:
                 continue
@@ -118,10 +118,7 @@ def _brute(chunk):
             acc.violation("harness:state-search-and-brute-force-verdicts-disagree", {"item": repr(item)})
         for sizes, verdict in verdicts:
             for sig, d in verdict:
-                d = dict(d)
-                d["item"] = repr(item)
-                d["wire_len"] = n
-                acc.violation(sig, d)
+                acc.violation(*W.finish_violation(sig, d, item, n))
         acc.nt(repr(item))
     return acc
 
